@@ -68,7 +68,7 @@ def run(ctx):
         bad = [c for c in ret.callees() if c.split("::")[-1].split("<")[0] not in IDENTITY + ("replace",)]
         ctx.ob("R1", "closure-returns-substituted", not bad and any(c.endswith("::replace") or "replace" in c.split("::")[-1] for c in ret.callees()), "the closure returns %s (offending calls %s)" % (ret.fmt()[:160], bad), fn=cf, how="provenance slice")
     # `replacement` in execute: extra_args first element, identity conversions only (the entire line: no trim)
-    rl = ex.locals_named("replacement")
+    rl = ex.locals_named("replacement") or [l_ for l_ in range(len(ex.locals)) if (ex.local_name(l_) or "").split("::")[-1] == "replacement"]      # (also inside a spliced helper)
     if not rl and repl_calls:
         # role: the user local captured as the `with` operand of str::replace
         try:
